@@ -54,6 +54,9 @@ try:
             print('patch failed:', r.stdout, r.stderr)
             sys.exit(2)
     else:
+        if os.path.isabs(a.file):
+            a.file = os.path.relpath(a.file, '/repo')      # never touch /repo itself
+        assert not a.file.startswith('..'), 'FILE must be inside the repository'
         p = os.path.join(dst, a.file)
         s = open(p).read()
         n = s.count(a.old)
